@@ -91,4 +91,9 @@ META = {
   text="The tag semantics and the permission parser are Lean definitions with theorems for every string; the struct tree they are applied to is reflected from /repo on every run; the up-front order is decided on regenerated call skeletons of cmd/entrypoint.go. Each run feeds >130 configuration documents (every single-field corruption of a valid configuration, all engines/versions/permission strings/glob sets) to the real command and compares rejection reports, absence of output on rejection, and paths/modes/package/engine/version/info/servers/schemes/controllers on acceptance.",
   note="Findings: C20-F1 (missing commonConfig accepted, open), C20-F2 (malformed-for-OpenAPI security scheme refused only after the routes file was written, open), C20-F3 (starts_with_letter looked at the first byte; fixed 3a6f899).",
  ),
+ "C07": dict(
+  technique="Lean 4 proof (components = image of the reachability closure under a per-declaration function: soundness by induction over the closure rounds, completeness of any closed superset of the roots by induction over reachability, non-interference and monotonicity as corollaries, properties = JSON-visible fields) + differential correspondence with components.schemas of both emitted documents on generated type-graph projects",
+  text="A component is `Decl.component d`, a function of the declaration alone - that usage sites, validators and other routes cannot change it is a theorem about the model (`usage_site_never_changes_component`), and the model is compared structurally with what the real pipeline emits for type graphs with recursion, embedding, cross-package references, every json-tag spelling and usage-site validators. The closure spec (`isClosed`, proved to imply completeness) is evaluated on the implementation's own component set.",
+  note="Findings: C07-F1 (3.0 usage site rewrote shared component; fixed 5d0e242), C07-F2 (unexported / json:\"-\" / empty-name fields; fixed fc4c1e9), C07-F4 (same name in two packages collapses; open), C07-F5 (alias of alias is `object`; open).",
+ ),
 }
